@@ -8,7 +8,6 @@ import (
 
 	"github.com/ChrisTrenkamp/xsel/node"
 	"github.com/ChrisTrenkamp/xsel/store"
-	"golang.org/x/text/language"
 )
 
 type Function func(context Context, args ...Result) (Result, error)
@@ -432,23 +431,14 @@ func lang(context Context, args ...Result) (Result, error) {
 	return Bool(false), nil
 }
 
+// checkLang implements the comparison of the lang() function: the language
+// of the node (targStr) equals the argument (srcStr), or is a sublanguage of
+// it, i.e. starts with the argument followed by '-'; case is ignored.
 func checkLang(srcStr, targStr string) Bool {
-	srcLang := language.Make(srcStr)
-	srcRegion, srcRegionConf := srcLang.Region()
+	src := strings.ToLower(srcStr)
+	targ := strings.ToLower(targStr)
 
-	targLang := language.Make(targStr)
-	targRegion, targRegionConf := targLang.Region()
-
-	if srcRegionConf == language.Exact && targRegionConf != language.Exact {
-		return Bool(false)
-	}
-
-	if srcRegion != targRegion && srcRegionConf == language.Exact && targRegionConf == language.Exact {
-		return Bool(false)
-	}
-
-	_, _, conf := language.NewMatcher([]language.Tag{srcLang}).Match(targLang)
-	return Bool(conf >= language.High)
+	return Bool(targ == src || strings.HasPrefix(targ, src+"-"))
 }
 
 func number0(context Context, args ...Result) (Result, error) {
